@@ -501,7 +501,7 @@ fn model_key(m: &Model) -> String {
 
 pub fn limits(ctx: &Ctx) -> (Limits, usize) {
     if ctx.thorough() {
-        (Limits { max_unsettled: 3, max_conns: BTreeMap::from([(0, 3), (1, 2)]), with_err: true, with_v1: true, dsts: vec![0, 1, 2] }, 6)
+        (Limits { max_unsettled: 2, max_conns: BTreeMap::from([(0, 3), (1, 2)]), with_err: true, with_v1: true, dsts: vec![0, 1, 2] }, 6)
     } else {
         (Limits { max_unsettled: 1, max_conns: BTreeMap::from([(0, 3), (1, 1)]), with_err: false, with_v1: true, dsts: vec![0, 1, 2] }, 5)
     }
